@@ -17,7 +17,7 @@ import riorun
 from common import Outcome, SEED, log
 
 PID = "C04"
-FAMS = ["tiny", "buffer", "page", "marker", "zeros", "compressible", "mixed"]
+FAMS = ["tiny", "buffer", "page", "marker", "zeros", "compressible", "mixed", "varint"]
 
 
 def run(tier):
@@ -34,7 +34,7 @@ def run(tier):
     if not thorough:
         progs = progs[:2500]
     log("[C04] %d distinct writer programs from TLC" % len(progs))
-    nb = 32 if thorough else 14
+    nb = 32 if thorough else 16
     batches = []
     for bi in range(nb):
         fam = FAMS[bi % len(FAMS)]
@@ -43,7 +43,7 @@ def run(tier):
         toks = list(recs)
         cases = []
         for p in progs[bi::nb]:
-            big = fam == "page"
+            big = fam in ("page", "varint")
             cases.append({"ops": riorun.concretize_ops(p, toks, rng), "comp": (bi + len(cases)) % 4, "wbuf": wbuf if wbuf > 1 or not big else 16,
                           "rbuf": rng.choice([16, 64, 4096, 0, 5]), "directio": False, "readprog": rng.choice([[0], [1, 0], [0, 1, 1], [0, 0, 1]]),
                           "seekall": not big or rng.random() < 0.15, "seeks": [0, 8, 9, 100, 4095, 4096, 4097], "damage": ""})
